@@ -150,7 +150,7 @@ def reader_slices(work):
     return out + fl
 
 
-def reader_jobs(work, builder, for_c06=False):
+def reader_jobs(work, builder, for_c06=False, tier="quick"):
     """The K1 jobs.  With for_c06 the same scripts are compiled with -DFOR_C06: only the XPath obligations (c06.reader.*) are asserted."""
     rs = reader_slices(work)
     robj = builder.cc(os.path.join(CDIR, "xr04.cpp"), includes=[work, CDIR], cpp=True)
@@ -166,6 +166,10 @@ def reader_jobs(work, builder, for_c06=False):
     shape_note = "one job per concrete shape of the element (number of labels / nails / flags, with or without white-space nodes); ids, names, texts, label kinds and attribute values are arbitrary"
     tshapes = ("0000", "0011", "0110", "1001", "1010", "1100", "2000", "2011", "2110")
     lshapes = ("00001", "01100", "02011", "10110", "11001", "12100", "12011", "02110", "11111")
+    if tier == "thorough":  # every shape: 0-2 labels x nail x white space x self loop; name x 0-2 labels x urgent x committed x white space
+        import itertools
+        tshapes = tuple("%d%d%d%d" % c for c in itertools.product(range(3), range(2), range(2), range(2)))
+        lshapes = tuple("%d%d%d%d%d" % c for c in itertools.product(range(2), range(3), range(2), range(2), range(2)))
     if for_c06:
         tshapes = tuple(s for s in tshapes if s[0] != "0")
     for sh in tshapes:
@@ -215,7 +219,7 @@ def build(tier, work, builder):
     inst[0].note = "Document::add_instance (contracts/C08): new bindings keyed by the instantiated instance's own parameters, inherited ones kept, the instantiated instance itself unchanged"
     jobs.append(inst[0])
     # ---- K1: reader side
-    rj, rs = reader_jobs(work, builder)
+    rj, rs = reader_jobs(work, builder, tier=tier)
     jobs += rj
     slices = slices + rs
     return {
